@@ -82,6 +82,14 @@ func (l *loaderC45) LoadBlob(ctx context.Context, bh restic.BlobHandle, buf []by
 	if !ok || miss {
 		return nil, fmt.Errorf("blob %v not found", bh)
 	}
+	// like Repository.LoadBlob: a buffer handed in by the caller is used when it is large
+	// enough (the bytes it held before are overwritten - a caller that still needs them, e.g.
+	// because the blob cache refers to that slice, must not hand it in)
+	if buf != nil && cap(buf) >= len(b) {
+		out := buf[:len(b)]
+		copy(out, b)
+		return out, nil
+	}
 	out := make([]byte, len(b), len(b)+3)
 	copy(out, b)
 	return out, nil
